@@ -101,6 +101,8 @@ where
         let mut successor: Option<(&K, &V)> = None;
 
         loop {
+            #[cfg(feature = "verif-hooks")]
+            crate::verif::step(crate::verif::Loop::SplayStep);
             match (self.comparator)(key, &node.key) {
                 Ordering::Less => {
                     successor = Some((&node.key, &node.value));
@@ -132,6 +134,8 @@ where
         let mut predecessor: Option<(&K, &V)> = None;
 
         loop {
+            #[cfg(feature = "verif-hooks")]
+            crate::verif::step(crate::verif::Loop::SplayStep);
             match (self.comparator)(key, &node.key) {
                 Ordering::Equal | Ordering::Less => match node.left {
                     Some(ref left) => node = left,
@@ -224,6 +228,8 @@ where
                 let mut node = root;
 
                 while let Some(ref left) = node.left {
+                    #[cfg(feature = "verif-hooks")]
+                    crate::verif::step(crate::verif::Loop::SplayStep);
                     node = left
                 }
                 Some(node)
@@ -238,6 +244,8 @@ where
                 let mut node = root;
 
                 while let Some(ref right) = node.right {
+                    #[cfg(feature = "verif-hooks")]
+                    crate::verif::step(crate::verif::Loop::SplayStep);
                     node = right
                 }
                 Some(node)
@@ -367,6 +375,8 @@ fn drop_subtree<K, V>(root: Option<Box<Node<K, V>>>) {
     let mut stack = Vec::new();
     stack.extend(root);
     while let Some(mut node) = stack.pop() {
+        #[cfg(feature = "verif-hooks")]
+        crate::verif::step(crate::verif::Loop::SplayStep);
         stack.extend(node.pop_left());
         stack.extend(node.pop_right());
     }
@@ -380,6 +390,8 @@ impl<K, V> Iterator for IntoIter<K, V> {
             None => return None,
         };
         loop {
+            #[cfg(feature = "verif-hooks")]
+            crate::verif::step(crate::verif::Loop::SplayStep);
             match cur.pop_left() {
                 Some(node) => {
                     let mut node = node;
@@ -412,6 +424,8 @@ impl<K, V> DoubleEndedIterator for IntoIter<K, V> {
             None => return None,
         };
         loop {
+            #[cfg(feature = "verif-hooks")]
+            crate::verif::step(crate::verif::Loop::SplayStep);
             match cur.pop_right() {
                 Some(node) => {
                     let mut node = node;
@@ -455,6 +469,8 @@ where
         let mut r = &mut newleft;
 
         loop {
+            #[cfg(feature = "verif-hooks")]
+            crate::verif::step(crate::verif::Loop::SplayStep);
             match comparator(key, &node.key) {
                 // Found it, yay!
                 Ordering::Equal => break,
